@@ -4,6 +4,7 @@ import Proofs.C13
 import Proofs.C13.Equiv
 import Proofs.C13.Part
 import Proofs.C13.LookbackEquiv
+import Proofs.C13.PartLB
 /-!
 # C13 — property theorems (statements only; proofs in `Proofs/C13*.lean`)
 
@@ -97,16 +98,23 @@ theorem lookback_window_valid (st : Streams) (cfg : Cfg) (steps : List Step) (hc
       shardIds c.cfg c.idx (st k.ident) k.size k.period (e.after + k.period) :=
   PfC13.lookback_window_valid st _ (inv_run st steps { cfg := cfg } (inv_init st cfg) hc) k e hl now hw1 hw2
 
-/-
-Not proved: the look-back cache of the partition ring (`pqueryShardLB`; the plain partition cache is
-`partition_cache_equiv` below) — tied by correspondence and judged on every generated history
-(mutation M6 is caught there).
--/
-
 /-! ### partition ring: watcher and shard cache -/
 
 /-- the watcher replaces the whole immutable ring (and with it the cache) on every update. -/
 theorem watcher_fresh (c : PClient) (ps : List Part) : pupdate c ps = { parts := ps } := rfl
+
+/-- **partition ring, observational equivalence**: after any history of watcher updates (partition ids
+distinct, as map keys are) and plain / look-back queries, the plain shard and the look-back shard at
+any query time (cache hits included) are the shards computed from the latest descriptor. -/
+theorem partition_observational_equivalence (st : PStreams) (steps : List PStep) (hw : PWFSteps steps) :
+    let c := prun st {} steps
+    (∀ ident size, (pqueryShard c st ident size).1 = pshard (plast steps []) (st ident) size 0 0) ∧
+    (∀ ident size period now,
+      (pqueryShardLB c st ident size period now).1 = pshard (plast steps []) (st ident) size period now) := by
+  have h2 := pinv2_run st steps {} (pinv2_init st) hw
+  have h1 := pinv_run st steps {} (fun k ids hk => by simp [lookupAssoc] at hk)
+  simp only
+  refine ⟨fun i s => by rw [pqueryShard_equiv st _ h1.1, h1.2], fun i s p n => by rw [pqueryShardLB_equiv st _ h2, h1.2]⟩
 
 /-- after any history of updates and queries the cached plain partition shard is the computed one. -/
 theorem partition_cache_equiv (st : PStreams) (steps : List PStep) (ident : String) (size : Int) :
